@@ -575,6 +575,21 @@ impl ZmtpEngine {
         .get("Identity")
         .map(|v| Blob::from(v.clone()));
 
+      // ZMTP/3.x peers announce their socket type in READY; apply the same pairing
+      // rules the ZMTP/2.0 greeting path enforces.
+      if let Some(ref peer_type) = peer_socket_type {
+        if !socket_types_compatible(self.config.socket_type_name.as_str(), peer_type) {
+          self.fail(
+            out,
+            ZmqError::ProtocolViolation(format!(
+              "Incompatible sockets: local {} <-> peer {}",
+              self.config.socket_type_name, peer_type
+            )),
+          );
+          return;
+        }
+      }
+
       if self.is_server {
         // Server received client READY → send server READY then complete.
         self.emit_local_ready(out);
@@ -863,6 +878,23 @@ fn local_mechanism_name_bytes(config: &ZmtpEngineConfig) -> &'static [u8; MECHAN
     return crate::security::NoiseXxMechanism::NAME_BYTES;
   }
   NullMechanism::NAME_BYTES
+}
+
+/// Valid ZeroMQ socket pairings (RFC 28/29/30/31), by wire name.
+fn socket_types_compatible(own: &str, peer: &str) -> bool {
+  matches!(
+    (own, peer),
+    ("PAIR", "PAIR")
+      | ("PUB", "SUB") | ("PUB", "XSUB")
+      | ("XPUB", "SUB") | ("XPUB", "XSUB")
+      | ("SUB", "PUB") | ("SUB", "XPUB")
+      | ("XSUB", "PUB") | ("XSUB", "XPUB")
+      | ("REQ", "REP") | ("REQ", "ROUTER")
+      | ("REP", "REQ") | ("REP", "DEALER")
+      | ("DEALER", "REP") | ("DEALER", "DEALER") | ("DEALER", "ROUTER")
+      | ("ROUTER", "REQ") | ("ROUTER", "DEALER") | ("ROUTER", "ROUTER")
+      | ("PUSH", "PULL") | ("PULL", "PUSH")
+  )
 }
 
 fn encode_msg(msg: crate::Msg) -> Result<Bytes, ZmqError> {
